@@ -710,6 +710,27 @@ def _c02_static_scope(rec):
     return any(isinstance(n, ast.Attribute) and n.attr in removed for n in ast.walk(ta))
 
 
+@classifier("duplicate-on-an-ignored-line-kept-but-its-references-redirected")
+def _c19_duplicate_ignored(rec):
+    """remove_duplicate_functions yields the deletion of the duplicate and the redirection of its references as separate transactions: when a line of the
+    duplicate carries an ignore comment the deletion is dropped, the redirection is not - the duplicate stays behind under its name, unreferenced (same
+    behaviour, but the binding was neither left alone nor renamed as a whole)."""
+    rule, before, after = _step(rec)
+    if rec.get("kind") != "binding_structure_changed" or rule != "fixes.remove_duplicate_functions" or not before or not after:
+        return False
+    tb, ta = _parse(before), _parse(after)
+    if tb is None or ta is None:
+        return False
+    lines = after.split("\n")
+    for fn in ast.walk(ta):
+        if isinstance(fn, (ast.FunctionDef, ast.AsyncFunctionDef)) and any(re.search(r"#\s*pyrefact\s*:\s*ignore", l) for l in lines[fn.lineno - 1:fn.end_lineno]):
+            used_before = sum(isinstance(n, ast.Name) and n.id == fn.name for n in ast.walk(tb))
+            used_after = sum(isinstance(n, ast.Name) and n.id == fn.name for n in ast.walk(ta))
+            if used_before > used_after:
+                return True
+    return False
+
+
 @classifier("renamed-definition-still-referenced-by-old-attribute-name")
 def _c19_attr_rename(rec):
     """align_variable_names_with_convention renames a method or class attribute at its definition (`def goVal5` -> `def go_val5`) but attribute accesses
